@@ -110,17 +110,18 @@ def VoteSet.finish (c : Cfg) (vs : VoteSet) (idx : Nat) (key : Bid) (bv : BlockV
     else vs
   (vs, true)
 
+/-- first half of `VoteSet.addVerifiedVote`: the canonical `votes[valIndex]` slot and `sum` -/
+def VoteSet.recordVote (c : Cfg) (vs : VoteSet) (idx : Nat) (key : Bid) : VoteSet :=
+  match alookup vs.votes idx with
+  | some _ =>
+    -- Replace vote if blockKey matches voteSet.maj23.
+    if vs.maj23 = some key then { vs with votes := aset vs.votes idx key } else vs
+  | none => { vs with votes := aset vs.votes idx key, sum := vs.sum + c.power idx }
+
 /-- `VoteSet.addVerifiedVote`; returns the new set and `added` -/
 def VoteSet.addVerified (c : Cfg) (vs : VoteSet) (idx : Nat) (key : Bid) : VoteSet × Bool :=
-  let power := c.power idx
-  let existing := alookup vs.votes idx
-  let conflicting := existing.isSome
-  let vs :=
-    match existing with
-    | some _ =>
-      -- Replace vote if blockKey matches voteSet.maj23.
-      if vs.maj23 = some key then { vs with votes := aset vs.votes idx key } else vs
-    | none => { vs with votes := aset vs.votes idx key, sum := vs.sum + power }
+  let conflicting := (alookup vs.votes idx).isSome
+  let vs := vs.recordVote c idx key
   match alookup vs.byBlock key with
   | some bv =>
     if conflicting && !bv.peerMaj23 then (vs, false) else
